@@ -532,6 +532,160 @@ func vRunC16Case(out *vOut, r *vRand, id int, stats map[string]int) {
 	c.finish()
 }
 
+// ---- C09: retention ----
+type vSegInfo struct {
+	base, count, pos, lastTs int64
+}
+
+func (c *vLogCase) segInfo() []vSegInfo {
+	var out []vSegInfo
+	for _, s := range c.l.Segments() {
+		out = append(out, vSegInfo{s.BaseOffset, s.MessageCount(), s.Position(), s.lastWriteTime})
+	}
+	return out
+}
+
+func (c *vLogCase) layout() {
+	var lay [][]int64
+	for _, s := range c.segInfo() {
+		lay = append(lay, []int64{s.base, s.count, s.pos})
+	}
+	c.ops = append(c.ops, vM{"op": "layout", "lay": lay})
+}
+
+var vPinnedTTL int64
+
+func (c *vLogCase) doCleanRetention(ttl int64) {
+	before := c.segInfo()
+	vPinnedTTL = ttl
+	var err error
+	p := vCatch(func() { err = c.l.Clean() })
+	c.ops = append(c.ops, vM{"op": "clean", "ttl": ttl})
+	c.stats["clean"]++
+	if p != "" || err != nil {
+		c.violation("clean-failed", fmt.Sprintf("Clean: %v %s", err, p))
+		return
+	}
+	after := c.segInfo()
+	// direct oracle (the property's words)
+	d := len(before) - len(after)
+	if d < 0 || len(after) == 0 {
+		c.violation("retention-not-suffix", fmt.Sprintf("Clean left %d of %d segments", len(after), len(before)))
+		return
+	}
+	for i := range after {
+		if after[i] != before[d+i] {
+			c.violation("retention-not-suffix", fmt.Sprintf("segments after Clean are not a suffix of the segments before: %v vs %v", after, before))
+			return
+		}
+	}
+	if d > 0 {
+		c.stats["clean-removes"]++
+	}
+	if d == len(before)-1 && d > 0 {
+		c.stats["clean-leaves-only-newest"]++
+	}
+	var msgs, bytes int64
+	for _, s := range after {
+		msgs += s.count
+		bytes += s.pos
+	}
+	if len(after) > 1 {
+		if c.opts.MaxLogMessages > 0 && msgs > c.opts.MaxLogMessages {
+			c.violation("retention-limit-messages", fmt.Sprintf("%d messages retained in %d segments, limit %d", msgs, len(after), c.opts.MaxLogMessages))
+		}
+		if c.opts.MaxLogBytes > 0 && bytes > c.opts.MaxLogBytes {
+			c.violation("retention-limit-bytes", fmt.Sprintf("%d bytes retained in %d segments, limit %d", bytes, len(after), c.opts.MaxLogBytes))
+		}
+		if c.opts.MaxLogAge > 0 {
+			for _, s := range after[:len(after)-1] {
+				if s.lastTs < ttl {
+					c.violation("retention-limit-age", fmt.Sprintf("segment %d last written at %d retained, cut-off %d", s.base, s.lastTs, ttl))
+				}
+			}
+		}
+	}
+	if d > 0 {
+		// minimality: keeping the newest removed segment as well must violate some limit
+		x := before[d-1]
+		needed := (c.opts.MaxLogAge > 0 && x.lastTs < ttl) ||
+			(c.opts.MaxLogMessages > 0 && msgs+x.count > c.opts.MaxLogMessages) ||
+			(c.opts.MaxLogBytes > 0 && bytes+x.pos > c.opts.MaxLogBytes)
+		if !needed {
+			c.violation("retention-not-minimal", fmt.Sprintf("segment %d was removed although no limit required it (limits msgs=%d bytes=%d age-cutoff=%d; kept %d msgs %d bytes)", x.base, c.opts.MaxLogMessages, c.opts.MaxLogBytes, ttl, msgs, bytes))
+		}
+	}
+	// the abstract log loses exactly the records of the removed segments
+	first := after[0].base
+	n := sort.Search(len(c.ref), func(i int) bool { return c.ref[i].off >= first })
+	c.ref = c.ref[n:]
+}
+
+func vRunC09Case(out *vOut, r *vRand, id int, stats map[string]int) {
+	maxb := int64([]int{70, 100, 150, 220}[r.intn(4)])
+	opts := Options{MaxSegmentBytes: maxb}
+	switch r.pick(3, 3, 3, 2, 2, 2) {
+	case 0:
+		opts.MaxLogMessages = int64(1 + r.intn(12))
+	case 1:
+		opts.MaxLogBytes = int64(60 + r.intn(600))
+	case 2:
+		opts.MaxLogAge = time.Nanosecond
+	case 3:
+		opts.MaxLogMessages = int64(1 + r.intn(12))
+		opts.MaxLogBytes = int64(60 + r.intn(600))
+	case 4:
+		opts.MaxLogMessages = int64(1 + r.intn(12))
+		opts.MaxLogBytes = int64(60 + r.intn(600))
+		opts.MaxLogAge = time.Nanosecond
+	default:
+		opts.MaxLogAge = time.Nanosecond
+		opts.MaxLogBytes = int64(60 + r.intn(600))
+	}
+	c := vNewLogCase(out, id, "c09", opts, stats)
+	if c.l == nil {
+		return
+	}
+	old := computeTTL
+	computeTTL = func(time.Duration) int64 { return vPinnedTTL }
+	defer func() { computeTTL = old }()
+	nops := 6 + r.intn(22)
+	for i := 0; i < nops && !c.viol; i++ {
+		switch r.pick(10, 4, 1, 1) {
+		case 0:
+			n := 1 + r.pick(5, 3, 2)
+			var msgs []*Message
+			for j := 0; j < n; j++ {
+				msgs = append(msgs, c.genMsg(r, nil))
+			}
+			c.doAppend(msgs)
+		case 1:
+			// cut-off somewhere around the message times written so far
+			ttl := int64(1000 + r.intn(int(c.nextTs-1000)+6))
+			c.layout()
+			c.doCleanRetention(ttl)
+			c.layout()
+		case 2:
+			c.doReopen()
+			if c.l == nil {
+				c.finish()
+				return
+			}
+		default:
+			c.readSweep(r, false)
+		}
+		c.state()
+	}
+	if !c.viol {
+		c.layout()
+		c.doCleanRetention(int64(1000 + r.intn(int(c.nextTs-1000)+6)))
+		c.layout()
+		c.state()
+		c.readSweep(r, true)
+	}
+	c.finish()
+}
+
 func TestVerifLog(t *testing.T) {
 	out := vOpenOut()
 	defer out.close()
@@ -545,6 +699,8 @@ func TestVerifLog(t *testing.T) {
 			vRunC01Case(out, r, i, stats)
 		case "c16":
 			vRunC16Case(out, r, i, stats)
+		case "c09":
+			vRunC09Case(out, r, i, stats)
 		}
 	}
 	out.emit(vM{"k": "stat", "dist": stats})
